@@ -465,6 +465,57 @@ def getAll (tls13 : Bool) : Nat → Defrag → List Rec → List GOut × Option 
       let (gs, e, d'') := getAll tls13 fuel d' recs'
       (g :: gs, e, d'')
 
+/-! ## _getNextRecord over a device, and the alert peek of `_sendMsgThroughSocket` -/
+
+/-- RecordLayer.recvRecord before any key change (null cipher): the record as read from the
+    RecordSocket, with the plaintext length cap (RFC 5246 6.2.1) -/
+def recvRecordNull {σ : Type} [Dev σ] (cfg : RSCfg) (s : σ) : Out σ Rec :=
+  (recordRecv cfg s).bind fun hb s' =>
+    if hb.2.length > cfg.recvRecordLimit then ⟨[], .exc .recordOverflow, s'⟩
+    else ⟨[], .ok { type := hb.1.type, ssl2 := hb.1.ssl2, data := hb.2 }, s'⟩
+
+/-- `_getNextRecord` up to its first non-0/1 item, reading records from the device.
+    `fuel` bounds the number of records examined (`pending` when it runs out). The alerts that
+    `_getNextRecordFromSocket` would try to send on a framing error are not modelled: the
+    exception it ends with is. -/
+def nextMsgDev {σ : Type} [Dev σ] (cfg : RSCfg) (tls13 : Bool) : Nat → Defrag → σ → Out σ (GOut × Defrag)
+  | 0, _, s => ⟨[], .pending, s⟩
+  | fuel + 1, d, s =>
+    match d.getMessage with
+    | .error e => ⟨[], .exc e, s⟩
+    | .ok (some (t, m), d') => ⟨[], .ok (.msg t m, d'), s⟩
+    | .ok (none, d') =>
+      (recvRecordNull cfg s).bind fun r s' =>
+        match fromSocketCheck r with
+        | .error e => ⟨[], .exc e, s'⟩
+        | .ok r =>
+          if r.type == 23 || (tls13 && r.type == 20) || r.type == 24 || r.ssl2 then
+            ⟨[], .ok (.record r, d'), s'⟩
+          else
+            match d'.addData r.type r.data with
+            | .error e => ⟨[], .exc e, s'⟩
+            | .ok d'' => nextMsgDev cfg tls13 fuel d'' s'
+
+/-- how `_sendMsgThroughSocket` ends after `send()` failed during the handshake -/
+inductive PeekRes where
+  | remoteAlert (level desc : Nat)   -- raise TLSRemoteAlert(alert)
+  | originalError                    -- bare `raise`: the socket.error of the failed send
+  deriving Repr, DecidableEq
+
+/-- "what did `_getNextRecord` hand us": an alert is raised as TLSRemoteAlert, anything else
+    re-raises the send error -/
+def peekResult (g : GOut) : Res PeekRes :=
+  match g with
+  | .msg 21 [l, dsc] => .ok (.remoteAlert l.toNat dsc.toNat)
+  | .msg 21 _ => .exc .syntaxError            -- Alert().parse on a body that is not 2 bytes
+  | _ => .ok .originalError
+
+/-- the error path of `_sendMsgThroughSocket` for a handshake message: read on (yielding 0 while
+    the transport would block) until `_getNextRecord` delivers something, then classify it -/
+def alertPeek {σ : Type} [Dev σ] (cfg : RSCfg) (tls13 : Bool) (fuel : Nat) (d : Defrag) (s : σ) :
+    Out σ PeekRes :=
+  (nextMsgDev cfg tls13 fuel d s).bind fun gd s' => ⟨[], peekResult gd.1, s'⟩
+
 /-! ## AsyncStateMachine -/
 
 /-- what `next(generator)` does when the state machine calls it -/
